@@ -61,6 +61,18 @@ func collect(e *Env, family string, n int, draw func(t *rapid.T) PkgSpec) []PkgS
 	return out
 }
 
+// formWalker hands out the base-path forms in turn, from a seed-dependent start: every
+// form is used by about the same number of specs of a run, whatever the seed (a form
+// that a run of 64 specs happens not to draw leaves a whole class of base paths untried).
+func formWalker(e *Env, forms []specgen.BaseForm) func() specgen.BaseForm {
+	k := int(splitmix(e.Seed) % uint64(len(forms)))
+	return func() specgen.BaseForm {
+		f := forms[k%len(forms)]
+		k++
+		return f
+	}
+}
+
 type droppedSpec struct {
 	Name, Why string
 	Raw       []byte
